@@ -321,6 +321,47 @@ def r7_ref_patterns(text):
         lets = "".join(" let %s = *%s;" % (x, x) for x in names)
         eds.append(Edit(ins, ins, lets, "R7"))
         return eds
+    # (a2) match arms: `PAT(&x) => body` -> `PAT(x) => { let x = *x; body }`
+    for mt in re.finditer(r"=>", m):
+        arrow = mt.start()
+        # pattern = from the previous `,` / `{` / `}` at the same level up to the arrow
+        k = arrow - 1
+        while k >= 0:
+            c = m[k]
+            if c in ")]":
+                k = match_open(m, k) - 1
+                continue
+            if c in ",{}":
+                break
+            k -= 1
+        ps = skip_ws(m, k + 1)
+        pat = m[ps:arrow]
+        if " if " in pat:
+            pat = pat[:pat.index(" if ")]
+        refs = [r for r in re.finditer(r"(?<![&A-Za-z0-9_])&\s*(mut\s+)?([a-z_][A-Za-z0-9_]*)\b(?!\s*::)", pat) if r.group(2) not in ("mut",)]
+        if not refs:
+            continue
+        # must really be a match arm: enclosing block is headed by `match`
+        ob = _enclosing_open(m, ps)
+        hk = _block_header_kw(m, ob) if ob is not None else None
+        if hk is None or hk[0] != "match":
+            continue
+        eds, names = [], []
+        for r in refs:
+            if r.group(1):
+                raise Unsupported("R7: `&mut x` pattern in match arm")
+            a = ps + r.start()
+            eds.append(Edit(a, a + 1, "", "R7"))
+            names.append(r.group(2))
+        lets = "".join(" let %s = *%s;" % (x, x) for x in names)
+        bs = skip_ws(m, arrow + 2)
+        if m[bs] == "{":
+            eds.append(Edit(bs + 1, bs + 1, lets, "R7"))
+        else:
+            be = _expr_end(m, bs)
+            eds.append(Edit(bs, bs, "{" + lets + " ", "R7"))
+            eds.append(Edit(be, be, " }", "R7"))
+        return eds
     # (b) closure params
     for mt in re.finditer(r"\|\s*&\s*([a-z_][A-Za-z0-9_]*)\s*\|", m):
         j = skip_ws_back(m, mt.start())
